@@ -9,6 +9,7 @@ SIM_NOTE = ("trusted base: the simulated kernel simk (documented ET-epoll / non-
             "decoders, gcc ASan/UBSan/LSan; the real cjet sources are compiled unmodified from /repo's working tree and linked with ld --wrap")
 
 UNIT_NOTE = {
+    "C19": "trusted base: harness/wsx (real websocket.c + compression.c + vendored zlib on an in-memory buffered_reader), CPython's zlib as independent peer, gcc ASan/UBSan/LSan; the daemon itself never enables the extension (compression level 0), so this property is decided in the harness",
     "C17": "trusted base: harness/ht (one TU per type x order instantiating the real macros), the reference arrays and the conservative FULL criterion (free or dead slot within min(add_range, 32) of the home bucket); gcc ASan/UBSan",
     "C20": "trusted base: harness/authfs (ld --wrap on the file-system calls of the real auth_file.c), the crash model 'effects of completed calls in program order', Python crypt for reference hashes; plus the simulated-kernel base for the daemon-level part",
     "C18": "trusted base: the independent reference DFA in harness/utf8/utf8_harness.c (written from RFC 3629), gcc ASan/UBSan; real utf8_checker.c compiled from /repo's working tree; little-endian word order",
@@ -29,6 +30,8 @@ CLAIMS = {
             "Generated credential files and access declarations; visibility and set/call rights of every peer compared with a reference model; uninitialised memory explored through ASan malloc_fill_byte 0x00/0xff/0xa5/seeded and recycled chunks; every output byte and log line searched for the unique password tokens; local-only add from all origin kinds.", "4 C08"),
     "C14": ("exploration", "routing ledger on a virtual clock with explicitly composed epoll batches (runtime monitoring + ASan)",
             "Timeout grid x precedence; armed timerfd value compared with floor(t*1e9); clock stepped to deadline-1ns / deadline; expiry raced against reply / caller and owner FIN/RST inside one harvested batch in both orders on batch sizes 1,2,10,64.", "4 C14"),
+    "C19": ("exploration", "round-trip differential against Python zlib as the second endpoint, ASan/UBSan/LSan on corrupt streams, RFC 7692 negotiation oracle (runtime monitoring)",
+            "Server-side WebSocket endpoint on an in-memory reader: server-to-client and client-to-server round trips for every payload class, level, window size, takeover setting and fragmentation incl. interleaved pings, corrupt / adversarial compressed streams under sanitizers, grammar-generated extension offers checked against RFC 7692 7.1.", "4 C19"),
     "C20": ("fault_enumeration", "crash-point / short-write / error enumeration on intercepted file-system calls with fresh-loader probes; authorisation matrix on the daemon",
             "Every crash point before/after each mutating file-system call of a password change, sampled short-write counts and ENOSPC/EIO/EINTR per call; each on-disk snapshot probed by a fresh process with the real loader (old set or new set, never neither); daemon-level authorisation matrix over user kinds.", "4 C20"),
     "C15": ("fault_enumeration", "single-fault enumeration over every allocation of a scripted corpus (countdown failure injection in the allocation tap) with sanitizers, ledger, victim attribution and post-fault probe",
